@@ -153,7 +153,7 @@ def pipeline_dict(case):
 def build(case):
     import pyx
 
-    times = [float(i + 1) for i in range(case["steps"])]
+    times = [float(i + 1) for i in range((case.get("retime") or {}).get("initial", case["steps"]))]
     if case["construction"] == "yaml":
         import yaml
         from pyxel.configuration import loads
@@ -377,6 +377,153 @@ def property_predicate(case, impl):
     return None
 
 
+# ------------------------------------------------------------------ stream: keyed (changes per run / after construction)
+def gen_keyed_case(rng):
+    """a sequential observation over pipeline keys (`….enabled` and `….arguments.lvl`, values including the falsy ones
+    False and 0), optionally with the readout times replaced after construction (setter or override)"""
+    while True:
+        c = gen_case(rng, groups_subset=rng.sample(GROUPS, rng.choice([2, 3, 4])))
+        if sum(len(ms or []) for _, ms in c["groups"]) >= 2:
+            break
+    c["toggles"], c["aliases"], c["fail"], c["pre_sweep"], c["debug"] = [], [], None, None, False
+    names = set()
+    for g, ms in c["groups"]:
+        for m in (ms or []):
+            m["args"].pop("_raise_step", None), m["args"].pop("_raise_cls", None)
+            while m["name"] in names:  # unique across the pipeline (keys are judged in C08; here the schedule)
+                m["name"] += "y"
+            names.add(m["name"])
+    models = [(g, i, m) for g, ms in c["groups"] for i, m in enumerate(ms or [])]
+    seq = []
+    for g, i, m in rng.sample(models, min(len(models), rng.choice([1, 2, 2, 3]))):
+        if m["enabled"] and rng.random() < 0.5:
+            m["args"]["lvl"] = rng.choice([7, 2.5, 1])
+            seq.append({"kind": "arg", "g": g, "i": i, "name": m["name"], "values": rng.choice([[0, 5], [0], [0.0, 3.5], [4, 0, 9]])})
+        else:
+            seq.append({"kind": "enabled", "g": g, "i": i, "name": m["name"], "values": rng.choice([[False], [False, True], [True, False], [True]])})
+    c["seq"] = seq
+    c["mode"] = rng.choice(["keyed-exposure", "keyed-sequential", "keyed-sequential"]) if seq else "keyed-exposure"
+    c["steps"] = rng.choice([1, 2, 3, 4])
+    c["retime"] = None
+    if rng.random() < 0.5:
+        c["retime"] = {"initial": rng.choice([k for k in (1, 2, 3, 5) if k != c["steps"]]), "via": rng.choice(["setter", "override"] if c["mode"] == "keyed-exposure" else ["setter"])}
+    return c
+
+
+def keyed_runs(case):
+    """the runs of the case, in execution order: [(toggles, argsets)]"""
+    from probes import canon_kwargs
+
+    if case["mode"] == "keyed-exposure":
+        return [([], [])]
+    runs = []
+    for p in case["seq"]:
+        for v in p["values"]:
+            if p["kind"] == "enabled":
+                runs.append(([[p["g"], p["i"], p["name"], bool(v), "override"]], []))
+            else:
+                m = dict(next(ms for g, ms in case["groups"] if g == p["g"])[p["i"]]["args"])
+                m["lvl"] = v
+                runs.append(([], [[p["g"], p["name"], canon_kwargs(m)]]))
+    return runs
+
+
+def keyed_expected(case, toggles, argsets):
+    """the statement, for one run: enabled models (after this run's change), group order, list order, this run's arguments"""
+    from probes import canon_kwargs
+
+    out = []
+    cfg = {g: ms for g, ms in case["groups"] if ms}
+    for step in range(case["steps"]):
+        for g in GROUPS:
+            for i, m in enumerate(cfg.get(g, [])):
+                en = m["enabled"]
+                for tg, ti, _n, new, _r in toggles:
+                    if tg == g and ti == i:
+                        en = new
+                args = canon_kwargs(m["args"])
+                for ag, an, aj in argsets:
+                    if ag == g and an == m["name"]:
+                        args = aj
+                if en:
+                    out.append([step, g, i, m["name"], args])
+    return out
+
+
+def run_keyed_impl(case):
+    import probes
+    import pyx
+    from pyxel.observation import Observation, ParameterValues
+
+    probes.reset()
+    try:
+        mode, det, pipe = build(case)
+        final_times = [float(i + 1) for i in range(case["steps"])]
+        okw = {}
+        if case.get("retime"):
+            if case["retime"]["via"] == "setter":
+                mode.readout.times = final_times
+            else:
+                okw = {"override_dct": {"exposure.readout.times": final_times}}
+        if case["mode"] == "keyed-exposure":
+            pyx.run(mode, det, pipe, **okw)
+        else:
+            pars = []
+            for p in case["seq"]:
+                key = f"pipeline.{p['g']}.{p['name']}." + ("enabled" if p["kind"] == "enabled" else "arguments.lvl")
+                pars.append(ParameterValues(key=key, values=list(p["values"])))
+            obs = Observation(mode="sequential", parameters=pars, readout=mode.readout, with_dask=False)
+            pyx.run(obs, det, pipe, with_inherited_coords=True)
+    except Exception as e:  # noqa: BLE001
+        return {"error": common.err_kind(e), "msg": str(e)[:300]}
+    trace = []
+    for rec in probes.LOG:
+        _, step, name, kw, _det, _temp, _tid = rec
+        ident = json.loads(kw).get("_id", "?#-1")
+        g, _, idx = ident.partition("#")
+        trace.append([step, g, int(idx), name, kw])
+    return {"trace": trace}
+
+
+def check_keyed(ck: common.Check, rng, n):
+    cases = [gen_keyed_case(rng) for _ in range(n)]
+    # directed: a falsy value for a numeric argument and for an enabled flag; more readout times set after construction
+    reqs, index = [], []
+    for ci, c in enumerate(cases):
+        for ri, (tg, ar) in enumerate(keyed_runs(c)):
+            from probes import canon_kwargs
+
+            groups = [[g, [[m["name"], m["enabled"], canon_kwargs(m["args"])] for m in (ms or [])]] for g, ms in c["groups"]]
+            reqs.append({"groups": groups, "toggles": tg, "argsets": ar, "steps": c["steps"], "debug": False})
+            index.append((ci, ri))
+    answers = LeanDriver("C01").batch(reqs)
+    per_case = {}
+    for (ci, ri), ans in zip(index, answers):
+        if "bad" in ans:
+            raise common.InfraError(f"driver rejected keyed request: {ans}")
+        per_case.setdefault(ci, []).append(ans)
+    for ci, c in enumerate(cases):
+        runs = keyed_runs(c)
+        impl = run_keyed_impl(c)
+        ck.case(c, nontrivial=len(runs) >= 2 or bool(c.get("retime")), stream="keyed")
+        ck.count(f"keyed:{c['mode']}")
+        ck.count("keyed:retime:" + (c["retime"]["via"] if c.get("retime") else "none"))
+        ck.count("keyed:falsy-values", sum(1 for p in c["seq"] for v in p["values"] if not v) if c["mode"] != "keyed-exposure" else 0)
+        if "error" in impl:
+            ck.violation("C01:schedule:keyed-run-failed", f"a valid configuration changed through keys failed to run: {impl['error']} {impl.get('msg', '')}", {"case": c, "impl": impl})
+            continue
+        expected = [x for tg, ar in runs for x in keyed_expected(c, tg, ar)]
+        model = [x for a in per_case.get(ci, []) for x in a["model"]]
+        if impl["trace"] != expected:
+            what = "runs of a sequential observation over pipeline keys did not execute the statement's schedule with that run's values" if c["mode"] != "keyed-exposure" else \
+                   "exposure whose readout times were replaced after construction did not execute once per configured readout step"
+            ck.violation("C01:schedule:keyed", what + f" (calls observed {len(impl['trace'])}, expected {len(expected)})", {"case": c, "impl": impl["trace"][:60], "expected": expected[:60]})
+        if impl["trace"] != model:
+            ck.disagreement("keyed", c, impl["trace"][:60], model[:60])
+        if model != expected:
+            raise common.InfraError("python predicate and Lean model disagree on a keyed case — harness bug")
+
+
 def body(ck: common.Check):
     import extract
 
@@ -442,9 +589,11 @@ def body(ck: common.Check):
                     break
         if "trace" in impl and not case.get("fail") and not case.get("aliases") and impl["trace"] != ans["spec"] and why is None:
             raise common.InfraError("python predicate and Lean spec disagree — harness bug")
+    check_keyed(ck, rng, 40 if ck.tier == "quick" else 500)
     ck.rule = ("pipelines over random subsets of the 10 groups (user order shuffled, null/empty groups, 1-4 models, "
                "enabled flags, argument dicts), 1-4 steps, YAML vs Python construction, debug on/off; plus every ordered "
-               "pair of groups populated; non-trivial = at least two enabled models; distinct by canonical JSON")
+               "pair of groups populated; keyed: sequential observations over `….enabled` / `….arguments.lvl` keys with falsy values, "
+               "readout times replaced after construction (setter / override); non-trivial = at least two enabled models; distinct by canonical JSON")
     ck.assumptions = ["probe `probes.trace` identifies the configured model through an `_id` argument it was configured with",
                       "the debug capture's node names are the scheduler's own view of (group, model)"]
     ck.trusted_base.append("C01: ModelFunction.__call__ → func(detector, **arguments) observed through a probe function")
@@ -458,6 +607,12 @@ if __name__ == "__main__":
         if case is None:
             print("replay names a broken obligation/correspondence, no concrete input:", rp["what"])
             sys.exit(1)
+        if str(case.get("mode", "")).startswith("keyed"):
+            impl = run_keyed_impl(case)
+            expected = [x for tg, ar in keyed_runs(case) for x in keyed_expected(case, tg, ar)]
+            why = None if impl.get("trace") == expected else f"keyed case: observed {impl.get('trace', impl)} expected {expected}"
+            print("REPRODUCED: " + why[:600] if why else "not reproduced (property holds on this input)")
+            sys.exit(1 if why else 0)
         impl = run_impl(case)
         why = property_predicate(case, impl)
         print("impl:", impl)
